@@ -9,4 +9,5 @@ func extraGens() {
 	runGen("c03", genC03)
 	runGen("c15", genC15)
 	runGen("c12", genC12)
+	runGen("c18", genC18)
 }
